@@ -264,4 +264,22 @@ def gen_cases(tier, seed):
         for name in ["retr_pasv", "stor_pasv", "mlsd"]:
             cases.append({"kind": "enum", "action": "rst", "stride": 5, "phase": seed % 5,
                           "plan": {"scripts": [name], "backend": "async", "seed": seed}})
-    return cases
+    return _split_heavy(cases) if tier == "thorough" else cases
+
+
+HEAVY = {"retr_huge": 8, "abor_mid": 8, "flood": 4, "stor_slow": 2, "two_transfers": 2}
+
+
+def _split_heavy(cases):
+    """an enumeration over a script with thousands of events is cut into P interleaved parts (same positions overall), so
+    that the longest single case stays short and the workers stay busy"""
+    out = []
+    for c in cases:
+        parts = max([HEAVY.get(n, 1) for n in c["plan"].get("scripts", [])] or [1]) if c["kind"] == "enum" else 1
+        if parts == 1:
+            out.append(c)
+            continue
+        stride, phase = c.get("stride") or 1, c.get("phase", 0)
+        for i in range(parts):
+            out.append(dict(c, stride=stride * parts, phase=phase + stride * i))
+    return out
